@@ -33,6 +33,7 @@ fn main() {
         std::panic::set_hook(Box::new(|_| {}));
     }
     let mut ctx = Ctx::new(prop, seed, thorough);
+    ctx.dir = dir.clone();
     if mode == "replay" {
         ctx.replay_only = Some(rest);
     }
